@@ -1172,6 +1172,91 @@ def falsify_classification(chk, names, ships):
     chk.coverage.setdefault('falsifier', {})['classification'] = dict(stats)
     return cex
 
+# ---- which bytes does the ASCII-compatibility test look at?  (mutant class "test set widened / narrowed")
+
+def _deviant_search(name):
+    """`verif_dev_XX`: a byte-wise codec that is ASCII except that byte 0xXX decodes to U+0100 (registered by the harness through
+    the public `codecs.register`; latin-1 above 0x7F)"""
+    if name.startswith('verif_dev_') and len(name) == 12:
+        try:
+            x = int(name[10:], 16)
+        except ValueError:
+            return None
+        def decode(data, errors='strict', x=x):
+            return ''.join('\u0100' if b == x else chr(b) for b in bytes(data)), len(data)
+        def encode(text, errors='strict', x=x):
+            return bytes(x if c == '\u0100' else ord(c) for c in text), len(text)
+        return codecs.CodecInfo(encode=encode, decode=decode, name=name)
+
+_dev_registered = False
+def deviant_codec(x):
+    global _dev_registered
+    if not _dev_registered:
+        codecs.register(_deviant_search)
+        _dev_registered = True
+    return f'verif_dev_{x:02x}'
+
+def independent_verdict(name, data):
+    """does `data` (ASCII bytes) decode to itself with codec `name` — asked of the codec directly"""
+    try:
+        with common.deadline(20):
+            r = data.decode(name)
+    except Exception:
+        return False
+    return isinstance(r, str) and r == data.decode('ascii')
+
+def falsify_test_set(chk, names):
+    """The tool's verdict for every codec name against TWO independent readings of "decoding the ASCII repertoire yields the same
+    characters": over the documented repertoire (NUL EOT BEL BS HT LF VT FF CR ESC + printable), and over all 128 ASCII bytes;
+    plus, for every single ASCII byte, a synthetic byte-wise codec that deviates at that byte only (a tested byte must make the
+    verdict False, an untested one must not).  Reports which test set explains the tool's verdicts."""
+    cex = Cex()
+    doc = G.ASCII_REPERTOIRE
+    full = bytes(range(128))
+    stats = collections.Counter()
+    obs = {}
+    pool = list(dict.fromkeys(list(names) + [deviant_codec(x) for x in range(128)]))
+    for n in pool:
+        a = impl_ascii(1, n)
+        if a not in '01':
+            continue
+        obs[n] = (a == '1', independent_verdict(n, doc), independent_verdict(n, full))
+    wrong_doc = sorted(n for n, (a, d, f) in obs.items() if a != d)
+    wrong_full = sorted(n for n, (a, d, f) in obs.items() if a != f)
+    stats['names'] = len(obs)
+    stats['tool != documented-set verdict'] = len(wrong_doc)
+    stats['tool != all-128-bytes verdict'] = len(wrong_full)
+    stats['names where the two readings differ'] = sum(1 for a, d, f in obs.values() if d != f)
+    reading = 'the documented test set' if not wrong_doc else 'all 128 ASCII bytes' if not wrong_full else None
+    explained = None
+    if wrong_doc and reading != 'all 128 ASCII bytes':
+        # which single change of the set explains every verdict?  (bounded: one byte dropped, one byte added, a contiguous tail/head dropped)
+        cands = [('without', [x]) for x in sorted(set(doc))] + [('with', [x]) for x in range(128) if x not in doc]
+        cands += [('without', list(range(x, 127))) for x in range(33, 127)] + [('without', list(range(32, x))) for x in range(33, 127)]
+        for how, xs in cands:
+            test = bytes(b for b in doc if b not in xs) if how == 'without' else bytes(sorted(set(doc) | set(xs)))
+            if all(independent_verdict(n, test) == a for n, (a, d, f) in obs.items() if n in wrong_doc) and \
+               all(independent_verdict(n, test) == a for n, (a, d, f) in list(obs.items())[::7]):
+                explained = f'the documented set {how} ' + ' '.join(f'0x{x:02X}' for x in xs)
+                break
+    attr = None
+    try:
+        ib = mods()[0]._interesting_ascii_bytes
+        if isinstance(ib, bytes) and ib != doc:
+            attr = {'missing': [f'0x{x:02X}' for x in sorted(set(doc) - set(ib))], 'extra': [f'0x{x:02X}' for x in sorted(set(ib) - set(doc))]}
+    except Exception:
+        pass
+    chk.coverage.setdefault('falsifier', {})['test-set'] = dict(stats, reading_implemented=reading or explained or 'no single test set explains the verdicts')
+    for n in wrong_doc[:6]:
+        a, d, f = obs[n]
+        synthetic = n.startswith('verif_dev_')
+        cex.append({'kind': 'ascii-test-set', 'key': 'ascii-set:' + n, 'name': n, 'observed': a, 'documented_set_verdict': d, 'all_128_bytes_verdict': f,
+                    'reading_the_code_implements': reading or explained or 'neither', '_interesting_ascii_bytes': attr,
+                    'synthetic_codec': synthetic,
+                    'replay': (f'codecs.register(<byte-wise codec, ASCII except 0x{n[10:]} -> U+0100>); ' if synthetic else '')
+                              + f'lib.encodings.is_ascii_compatible_encoding({n!r})'})
+    return cex
+
 def _guard(fn, name, seconds=20):
     """a call into a real codec that cannot stall the check: common.Hang (an Exception) after `seconds`"""
     def run(*a):
